@@ -51,6 +51,7 @@ type c13DivSite struct {
 	at      ast.Node // the binary expression / assignment / call (the call site, for a parameter)
 	divisor ast.Expr
 	intn    bool
+	lenOf   bool // the operand is len(divisor): len(p) of a slice parameter p, judged at the call site
 }
 
 func c13Divisors(c *core.Ctx, g *c13Graph, sf *c13SpecFields) {
@@ -73,6 +74,9 @@ func c13Divisors(c *core.Ctx, g *c13Graph, sf *c13SpecFields) {
 					kind = "Intn argument "
 				}
 				role, full := c13DivRole(m, sf, s.divisor, false), c13DivRole(m, sf, s.divisor, true)
+				if s.lenOf {
+					role, full = "len("+role+")", "len("+full+")"
+				}
 				cons := g.owner(m).name + "|" + kind + role
 				gr := groups[cons]
 				if gr == nil {
@@ -105,11 +109,19 @@ func c13Divisors(c *core.Ctx, g *c13Graph, sf *c13SpecFields) {
 			continue
 		}
 		// 2. spec field with schema minimum >= 1
-		if v := c13FieldOf(n, c13Core(n, gr.sites[0].divisor)); v != nil && sf.isSpec(v) && sf.schemaMinAtLeast(v, 1) && len(gr.sites) == 1 {
+		if v := c13FieldOf(n, c13Core(n, gr.sites[0].divisor)); v != nil && sf.isSpec(v) && sf.schemaMinAtLeast(v, 1) && len(gr.sites) == 1 && !gr.sites[0].lenOf {
 			c.Discharge("R-C13-3", cons, pos(c, at), "spec field "+sf.name(v)+" has schema minimum >= 1")
 			continue
 		}
-		// 3. reviewed table (by operand)
+		// 3. len(F) of a sized buffer F in a function whose indexing of F is already reviewed by
+		// R-C13-7: "the buffer is not empty here" is the same obligation (a ring index advanced with
+		// `% len(bucket)` instead of a compare-and-reset)
+		if okBuf, detail, found := c13SizedBufferReason(c, g, sf, n, gr.sites[0]); found {
+			c.Check(okBuf, "R-C13-3", cons, pos(c, at), "len of a sized buffer that R-C13-7 shows non-empty in this function — checked: "+detail,
+				"the operand is the length of a sized buffer and the reason why it is not empty no longer holds: "+detail, n.chain()...)
+			continue
+		}
+		// 4. reviewed table (by operand)
 		e, ok := c13DivTable[gr.key]
 		perKey[gr.key] += len(gr.sites)
 		switch {
@@ -195,7 +207,12 @@ func c13ParamIndex(n *c13Node, id *ast.Ident) int {
 // at the call sites of that function, with the argument as the operand (two levels).
 func c13EffectiveSites(g *c13Graph, s c13DivSite, depth int) []c13DivSite {
 	n := s.node
-	id, ok := c13Core(n, s.divisor).(*ast.Ident)
+	core := c13Core(n, s.divisor)
+	lenOf := s.lenOf
+	if arg, isLen := c13IsLen(n, core); isLen && !lenOf {
+		core, lenOf = c13Core(n, arg), true
+	}
+	id, ok := core.(*ast.Ident)
 	if !ok || depth >= 2 {
 		return []c13DivSite{s}
 	}
@@ -212,7 +229,7 @@ func c13EffectiveSites(g *c13Graph, s c13DivSite, depth int) []c13DivSite {
 		if len(cs.call.Args) <= pi {
 			return []c13DivSite{s}
 		}
-		out = append(out, c13EffectiveSites(g, c13DivSite{node: cs.caller, at: cs.call, divisor: cs.call.Args[pi], intn: s.intn}, depth+1)...)
+		out = append(out, c13EffectiveSites(g, c13DivSite{node: cs.caller, at: cs.call, divisor: cs.call.Args[pi], intn: s.intn, lenOf: lenOf}, depth+1)...)
 	}
 	if len(out) == 0 {
 		return []c13DivSite{s}
@@ -461,8 +478,10 @@ func c13ProveNonZero(c *core.Ctx, n *c13Node, s c13DivSite) (bool, *flow.State) 
 	f := c13Innermost(top, s.at)
 	chain := c13CoreChain(n, s.divisor)
 	core := chain[len(chain)-1]
-	names := c13ParamVocab(f, c13AliasNames(n, f, chain))
+	names := c13AliasNames(n, f, chain, s.lenOf)
+	names = c13ParamVocab(f, names)
 	_, isLen := c13IsLen(n, core)
+	isLen = isLen || s.lenOf
 	unsigned := isLen
 	if tv, ok := f.Info.Types[core]; ok && tv.Type != nil {
 		if b, ok := tv.Type.Underlying().(*types.Basic); ok && b.Info()&types.IsUnsigned != 0 {
@@ -527,14 +546,48 @@ func c13CoreChain(n *c13Node, e ast.Expr) []ast.Expr {
 
 // c13AliasNames renders the chain and every other local of f that is defined once as one of
 // its members: a test of any of them is a test of the operand (`n := len(xs); if n == 0`).
-func c13AliasNames(n *c13Node, f *flow.Func, chain []ast.Expr) []string {
+func c13AliasNames(n *c13Node, f *flow.Func, chain []ast.Expr, lenOf bool) []string {
 	set := map[string]bool{}
 	var names []string
 	for _, e := range chain {
 		r := f.Render(e)
+		if lenOf {
+			r = "len(" + r + ")"
+		}
 		if !set[r] {
 			set[r] = true
 			names = append(names, r)
+		}
+	}
+	// single-definition locals INSIDE the expression are spelled out too:
+	// `servers := lb.base.Servers; ... % len(servers)` is also `len(lb.base.Servers)`
+	for round := 0; round < 3; round++ {
+		added := false
+		for _, e := range chain {
+			ast.Inspect(e, func(x ast.Node) bool {
+				id, ok := x.(*ast.Ident)
+				if !ok {
+					return true
+				}
+				def := c13SingleDef(n, id)
+				if def == nil {
+					return true
+				}
+				from, to := f.Render(id), f.Render(c13StripConv(n, def))
+				for _, nm := range append([]string{}, names...) {
+					if strings.Contains(nm, from) {
+						if nn := strings.ReplaceAll(nm, from, to); !set[nn] {
+							set[nn] = true
+							names = append(names, nn)
+							added = true
+						}
+					}
+				}
+				return true
+			})
+		}
+		if !added {
+			break
 		}
 	}
 	seen := map[types.Object]bool{}
@@ -565,6 +618,33 @@ func c13AliasNames(n *c13Node, f *flow.Func, chain []ast.Expr) []string {
 // c13CheckPushBeforeRate: every call of a window's FailureRate/SlowRate happens after a Push
 // in the same function, on every path.
 func c13CheckPushBeforeRate(c *core.Ctx, g *c13Graph, sf *c13SpecFields) (bool, string) {
+	return c13Memo(c, "push-before-rate", func() (bool, string) { return c13PushBeforeRate(c) })
+}
+
+var c13MemoTab = map[*core.Ctx]map[string][2]any{}
+
+// c13Memo caches the verdict of a shared reason check for one run.
+func c13Memo(c *core.Ctx, key string, f func() (bool, string)) (bool, string) {
+	m := c13MemoTab[c]
+	if m == nil {
+		m = map[string][2]any{}
+		c13MemoTab[c] = m
+	}
+	if v, ok := m[key]; ok {
+		return v[0].(bool), v[1].(string)
+	}
+	ok, d := f()
+	m[key] = [2]any{ok, d}
+	return ok, d
+}
+
+// c13PushBeforeRate: every FailureRate / SlowRate call of the package is preceded by a window Push
+// on every path. A call is judged in its own function; if that function does not push itself,
+// in each same-package caller with the callee interpreted in place, and so on upwards (the Push
+// may sit in the caller and the rate computation in a helper, or both in a helper of the public
+// method). A call that cannot be followed (reached only through a function value) is a checker
+// error, not a violation.
+func c13PushBeforeRate(c *core.Ctx) (bool, string) {
 	isWin := func(f *flow.Func, call *ast.CallExpr, names ...string) bool {
 		for _, nm := range names {
 			if calleeIs(f, call, "("+c13CB+".Window)."+nm, "(*"+c13CB+".CountBasedWindow)."+nm, "(*"+c13CB+".TimeBasedWindow)."+nm) {
@@ -573,17 +653,12 @@ func c13CheckPushBeforeRate(c *core.Ctx, g *c13Graph, sf *c13SpecFields) (bool, 
 		}
 		return false
 	}
-	n := 0
-	bad := ""
-	// the functions of the package are analysed from their entry points: a function that is
-	// called from the same package is interpreted in place in its callers (the Push may be in
-	// the caller and the rate computation in a helper, or the other way round)
 	pkg := c.Prog.Pkg(c13CB)
 	if pkg == nil {
 		return false, "package " + c13CB + " not loaded"
 	}
-	calledInPkg := map[types.Object]bool{}
 	var funcs []*flow.Func
+	callers := map[types.Object][]*flow.Func{}
 	for _, file := range pkg.Syntax {
 		for _, d := range file.Decls {
 			fd, ok := d.(*ast.FuncDecl)
@@ -592,63 +667,89 @@ func c13CheckPushBeforeRate(c *core.Ctx, g *c13Graph, sf *c13SpecFields) (bool, 
 			}
 			f := flow.NewFunc(pkg, fd)
 			funcs = append(funcs, f)
+			seen := map[types.Object]bool{}
 			for _, call := range calls(fd.Body, true) {
-				if fo, ok := f.Callee(call).(*types.Func); ok && fo.Pkg() == pkg.Types && declOf(pkg, fo) != nil && declOf(pkg, fo) != fd {
-					calledInPkg[fo.Origin()] = true
+				if fo, ok := f.Callee(call).(*types.Func); ok && fo.Pkg() == pkg.Types && declOf(pkg, fo) != nil && declOf(pkg, fo) != fd && !seen[fo.Origin()] {
+					seen[fo.Origin()] = true
+					callers[fo.Origin()] = append(callers[fo.Origin()], f)
 				}
 			}
 		}
 	}
-	judged := map[*ast.CallExpr]bool{}
-	for _, f := range funcs {
-		fd := f.Node.(*ast.FuncDecl)
-		if calledInPkg[pkg.TypesInfo.Defs[fd.Name]] {
-			continue
+	results := map[*flow.Func]*flow.Result{}
+	analysis := func(f *flow.Func) *flow.Result {
+		if r, ok := results[f]; ok {
+			return r
 		}
-		var rates []reachCall
-		for _, h := range reach(f, 3) {
-			for _, call := range calls(h.Body, false) {
-				if isWin(h, call, "FailureRate", "SlowRate") {
-					rates = append(rates, reachCall{h, call})
-				}
-			}
-		}
-		if len(rates) == 0 {
-			continue
-		}
-		res := analyze(c, f, flow.Config{
-			Inline: inlineSamePkg(f),
-			Track:  func(string) bool { return false },
+		r := analyze(c, f, flow.Config{
+			Inline:         inlineSamePkg(f),
+			InlineClosures: true,
+			Track:          func(string) bool { return false },
 			OnCall: func(st *flow.State, call *ast.CallExpr, callee types.Object, deferred bool) {
 				if isWin(f, call, "Push") {
 					st.Set("ev:pushed", flow.True)
 				}
 			},
 		})
+		results[f] = r
+		return r
+	}
+	// verdict: 1 proved, 0 refuted (a path without Push), -1 cannot follow
+	var judge func(f *flow.Func, call *ast.CallExpr, depth int) (int, string)
+	judge = func(f *flow.Func, call *ast.CallExpr, depth int) (int, string) {
+		res := analysis(f)
 		if res == nil {
-			continue
+			return -1, f.Name + " could not be analysed"
 		}
-		for _, rc := range rates {
-			states := res.At[rc.Call]
-			if len(states) == 0 {
-				continue // not interpreted from this entry
-			}
-			if !judged[rc.Call] {
-				judged[rc.Call] = true
-				n++
-			}
+		states := res.At[call]
+		if len(states) > 0 {
+			all := true
 			for _, st := range states {
-				if !st.Is("ev:pushed", flow.True) && bad == "" {
-					bad = sprintf("%s computes a rate at %s on a path (entered through %s) without a preceding window Push: total may be 0 and the division panics", rc.Fn.Name, pos(c, rc.Call), declName(pkg, fd))
+				if !st.Is("ev:pushed", flow.True) {
+					all = false
 				}
+			}
+			if all {
+				return 1, ""
+			}
+		}
+		fd, _ := f.Node.(*ast.FuncDecl)
+		var up []*flow.Func
+		if fd != nil {
+			up = callers[pkg.TypesInfo.Defs[fd.Name]]
+		}
+		if len(up) == 0 || depth >= 4 {
+			if len(states) == 0 {
+				return -1, "the call is not interpreted from " + f.Name
+			}
+			return 0, f.Name
+		}
+		for _, cf := range up {
+			if v, why := judge(cf, call, depth+1); v != 1 {
+				return v, why
+			}
+		}
+		return 1, ""
+	}
+	n := 0
+	for _, f := range funcs {
+		for _, call := range calls(f.Body, false) {
+			if !isWin(f, call, "FailureRate", "SlowRate") {
+				continue
+			}
+			n++
+			switch v, why := judge(f, call, 0); v {
+			case 0:
+				return false, sprintf("%s computes a rate at %s on a path (entered through %s) without a preceding window Push: total may be 0 and the division panics", f.Name, pos(c, call), why)
+			case -1:
+				c.Errorf("R-C13-3: push-before-rate: cannot follow the rate computation at %s: %s", pos(c, call), why)
+				return true, "cannot follow (checker error recorded)"
 			}
 		}
 	}
 	if n < 2 {
-		return false, sprintf("only %d FailureRate/SlowRate call sites found (expected >= 2)", n)
-	}
-	if bad != "" {
-		return false, bad
+		c.Errorf("R-C13-3: push-before-rate: only %d FailureRate/SlowRate call sites found (expected >= 2)", n)
+		return true, "anchor lost (checker error recorded)"
 	}
 	return true, sprintf("%d rate computations, each after window.Push on every path", n)
 }
@@ -814,4 +915,29 @@ func c13MustCompile(c *core.Ctx, g *c13Graph, sf *c13SpecFields) {
 		})
 	}
 	c.RequireCount("R-C13-5", "regexp.MustCompile(spec field) sites", sites, 3)
+}
+
+// c13SizedBufferReason: the operand is len(x.F) with F a sized buffer (R-C13-7) and the owner of
+// the function has a reviewed R-C13-7 entry for F: that entry's check decides.
+func c13SizedBufferReason(c *core.Ctx, g *c13Graph, sf *c13SpecFields, n *c13Node, s c13DivSite) (ok bool, detail string, found bool) {
+	core := c13Core(n, s.divisor)
+	arg, isLen := c13IsLen(n, core)
+	if s.lenOf {
+		arg, isLen = core, true
+	}
+	if !isLen {
+		return false, "", false
+	}
+	field := c13FieldOf(n, c13Core(n, arg))
+	if field == nil || len(c13SizedFields(g)[field]) == 0 {
+		return false, "", false
+	}
+	suffix := "|index into sized buffer " + strings.TrimPrefix(sf.name(field), n.pkg.Types.Name()+".")
+	for _, m := range g.ownerChain(n) {
+		if e, has := c13BufTable[m.name+suffix]; has && e.check != nil {
+			okc, d := e.check(c, g, sf, field)
+			return okc, d, true
+		}
+	}
+	return false, "", false
 }
